@@ -1,6 +1,7 @@
 import TLVerif.Syntaxtl2.Parser
 import TLVerif.Syntaxtl2.Format
 import TLVerif.Syntaxtl2.FormatLemmas
+import TLVerif.Syntaxtl2.StructLemmas
 /-! # C22 — TL2 formatter round-trips and is idempotent
 
 Statement (fixed): formatting any parsed TL2 file (with the default and the canonical options) yields text that parses
@@ -71,6 +72,52 @@ theorem default_idempotent_of_visible_roundtrip (f f' : File)
   injection h3 with h3
   subst h3
   exact print_visible_only _ _ _ h2
+
+/-! ### Token-level round trip of the recursive part of the grammar (all depths, all lengths)
+
+`strip its` is the token sequence (type, text) of an iterator without white-space/comment tokens; `typeToks`,
+`fieldsToks`, `StructDef.toks` are the token sequences of the text `TL2TypeRef.Print`, the field printers and
+`printWithNewLineOption` write (for any options: white space, line breaks and comments are exactly what `strip`
+removes). `Ctx N tx it` is the lexer invariant of `C20.lexer_tokens_good`. The theorems say: from such tokens
+the parser returns the same type / the same fields and variants up to comments, consuming exactly them.
+What is missing for the full statement: the declaration wrappers (name, magic, template arguments, `=`, `<=>`, `=>`,
+`;`) and the lexing of the printed text into these tokens — both are covered by the tie only. -/
+
+/-- every well-formed type expression (any nesting depth) is recovered from its printed tokens. -/
+theorem type_roundtrip_tokens (t : TypeRef) (hwf : t.wf = true) (its : Iter) (ks : List TK) (pos : Pos) (fuel : Nat)
+    (hm : strip its = typeToks t ++ ks) (hfol : FollowK ks) (hf : needT t ≤ fuel) :
+    ∃ rest, parseType fuel its pos = .ok ({ start := true }, rest, t) ∧ strip rest = ks ∧ rest <:+ its :=
+  typeS t hwf its ks pos fuel hm hfol hf
+
+/-- every list of well-formed named fields is recovered (up to comments) from its printed tokens. -/
+theorem fields_roundtrip_tokens {N : Nat} {tx : Bytes} {it : Iter} (hc : Ctx N tx it) (pos : Pos) (fuel : Nat)
+    (fs : List Field) (hwf : ∀ f ∈ fs, f.wf = true) (hfuel : ∀ f ∈ fs, needT f.ty ≤ fuel) (its : Iter) (hs : its <:+ it)
+    (k : TK) (ks : List TK) (fz : Nat) (hm : strip its = fieldsToks fs ++ k :: ks)
+    (hk : fieldStart.contains k.1 = false) (hla : k.1 ≠ T.lAngle) (hfz : fs.length < fz) :
+    ∃ rest fs', zeroOrMore (parseField tx fuel) fz its pos [] false = .ok ({ start := false || !fs.isEmpty }, rest, [] ++ fs') ∧
+      fs'.map Field.core = fs.map Field.core ∧ strip rest = k :: ks ∧ rest <:+ its :=
+  fieldsS hc pos fuel fs hwf hfuel its hs k ks fz [] false hm hk hla hfz
+
+/-- every well-formed struct body — a list of named fields, or a union of two or more variants (alias, fields or
+empty) — is recovered (up to comments) from its printed tokens followed by `;`. -/
+theorem struct_roundtrip_tokens {N : Nat} {tx : Bytes} {it : Iter} (hc : Ctx N tx it) (sd : StructDef) (hwf : sd.wf = true)
+    (its : Iter) (hs : its <:+ it) (ks : List TK) (pos : Pos) (fuel : Nat) (hm : strip its = sd.toks ++ semiTK :: ks)
+    (hf : sd.need ≤ fuel) :
+    ∃ st rest sd', parseStructDef tx fuel its pos = .ok (st, rest, sd') ∧ st.err = none ∧ sd'.core = sd.core ∧
+      strip rest = semiTK :: ks ∧ rest <:+ its :=
+  structS hc sd hwf its hs ks pos fuel hm hf
+
+/-- the hypotheses are satisfiable by non-trivial values: the lexer's tokens of a printed struct body. -/
+def sampleBody : StructDef := .union
+  [⟨bs "A", .fields [⟨bs "x", true, false, .bracket (some (.num 3)) (.app ⟨bs "ns", bs "m"⟩ [.ty (.app ⟨[], bs "int"⟩ []), .num 7]), [], []⟩,
+      ⟨bs "_", false, true, .app ⟨[], bs "t"⟩ [], [], []⟩], []⟩,
+   ⟨bs "b", .alias (.bracket none (.app ⟨[], bs "string"⟩ [])), []⟩, ⟨bs "Type", .fields [], []⟩]
+
+def lexToks (tx : Bytes) : Iter := match lexTL2 tx with | .ok lx => lx.toks | _ => []
+
+example : sampleBody.wf = true ∧
+    strip (lexToks (bs "A x?:[3]ns.m<int,7> _:t\n\t| b []string // c\n | Type;")) =
+      sampleBody.toks ++ semiTK :: [(T.eof, [])] := by decide +kernel
 
 /-! ### Counter-examples on the unchanged code (both are in the image of the parser) -/
 
